@@ -518,17 +518,40 @@ func c09batch(c *an.Ctx) {
 	}
 	// exit flag consulted before the loop, not inside it
 	before, inside := false, false
-	an.Instrs(fn, func(in ssa.Instruction) {
+	// the flag is read by atomic.LoadInt32(&t.exitFlag) or by an accessor that does just that (Topic.Exiting)
+	isFlagLoad := func(in ssa.Instruction) bool {
 		call, ok := in.(*ssa.Call)
 		if !ok || !an.StdCallee(call, "sync/atomic", "LoadInt32") {
+			return false
+		}
+		fa, ok := call.Call.Args[0].(*ssa.FieldAddr)
+		return ok && an.FieldOf(fa) == exitF
+	}
+	accessor := func(in ssa.Instruction) bool {
+		call, ok := in.(*ssa.Call)
+		if !ok {
+			return false
+		}
+		f := an.StaticCallee(call)
+		if f == nil || f.Pkg != fn.Pkg || len(f.Blocks) == 0 || len(f.Blocks) > 3 {
+			return false
+		}
+		loads := false
+		an.Instrs(f, func(i2 ssa.Instruction) {
+			if isFlagLoad(i2) {
+				loads = true
+			}
+		})
+		return loads
+	}
+	an.Instrs(fn, func(in ssa.Instruction) {
+		if !isFlagLoad(in) && !accessor(in) {
 			return
 		}
-		if fa, ok := call.Call.Args[0].(*ssa.FieldAddr); ok && an.FieldOf(fa) == exitF {
-			if batch.Blocks[call.Block()] {
-				inside = true
-			} else if call.Block().Dominates(batch.Header) {
-				before = true
-			}
+		if batch.Blocks[in.Block()] {
+			inside = true
+		} else if in.Block().Dominates(batch.Header) {
+			before = true
 		}
 	})
 	c.Check(before && !inside, fn, "exit check once, before the batch", fn.Pos(), "", "the topic's exit flag is not tested exactly once before the batch loop: a close that starts mid-batch leaves the first messages queued although MPUB answers an error")
